@@ -34,3 +34,45 @@ def _c10_insert_lost(rec):
     dels = {tuple(r)[0] for r, new in sched if not new and r[0] != r[1]}
     ins = {tuple(r)[0] for r, new in sched if new and r[0] == r[1]}
     return bool(dels & ins)
+
+
+# ----------------------------------------------------------------------------------------- C12
+def _subset_spans(rec):
+    d = rec.get("detail") or {}
+    impl, ref = d.get("implementation"), d.get("reference")
+    if not isinstance(impl, list) or not isinstance(ref, list):
+        return False
+    ref = {tuple(x) for x in ref}
+    return all(tuple(x) in ref for x in impl) and len(impl) < len(ref)
+
+
+@classifier("match-toplevel-sequence-quantifier")
+def _c12_toplevel_quant(rec):
+    """Statement-sequence patterns are matched against windows of exactly len(pattern) statements, each statement
+    against one template: a ?, * or + wildcard standing directly in the sequence never matches anything."""
+    d = rec.get("detail") or {}
+    return (rec.get("kind") == "search_mismatch" and d.get("pattern_kind") == "seq" and bool(d.get("toplevel_quantifier"))
+            and _subset_spans(rec))
+
+
+@classifier("match-list-split-not-backtracked")
+def _c12_no_backtracking(rec):
+    """_match_list returns the first internally consistent split of a list; when that split binds a named
+    wildcard differently from an occurrence outside the list, no other split is tried and the match is missed."""
+    d = rec.get("detail") or {}
+    if rec.get("kind") != "search_mismatch" or not _subset_spans(rec):
+        return False
+    pat = d.get("pattern") or ""
+    names = re.findall(r"\{\{(\w+)\}\}", pat)
+    repeated = any(names.count(n) >= 2 for n in set(names))
+    quantified = re.search(r"\{\{(?:\w+|\.\.\.)[?*+]\}\}", pat) is not None
+    return repeated and quantified and d.get("pattern_kind") != "seq"
+
+
+# ----------------------------------------------------------------------------------------- C14
+@classifier("sub-textual-instantiation-ignores-precedence")
+def _c14_precedence(rec):
+    """Replacement templates are instantiated by pasting the printed binding into the template text; a binding
+    whose precedence is lower than the hole's context (`{{x}} * 2` with x = `a + b`) denotes another tree."""
+    d = rec.get("detail") or {}
+    return rec.get("kind") == "tree_differs_from_reference_substitution" and d.get("explained_by_textual_instantiation") is True
